@@ -20,7 +20,9 @@ type Frame struct {
 	block  *ssa.BasicBlock
 	prev   *ssa.BasicBlock
 	pc     int
-	regs   map[ssa.Value]Value
+	regs   []Value
+	info   *fnInfo
+	extra  map[ssa.Value]Value // trampoline frames only
 	defers []deferred
 	retTo  ssa.Value // register in the caller frame receiving the result (nil: discard)
 	result Value
@@ -64,6 +66,7 @@ type PendOp struct {
 	hasDefault bool
 	ctx        *CtxObj
 	timer      *TimerObj
+	ops        []opRef
 	// completion callbacks
 	done     func()                           // send / close / cancel / quiesce / yield
 	recv     func(v Value, ok bool)           // recv
@@ -121,6 +124,45 @@ func (in *Interp) newG(parent *G, fv *FuncV, args []Value, site string) *G {
 	return g
 }
 
+// unset marks a register that has not been assigned (nil is a legal value)
+type unsetT struct{}
+
+func (fr *Frame) setReg(v ssa.Value, x Value) {
+	if fr.info == nil {
+		fr.extra[v] = x
+		return
+	}
+	i, ok := fr.info.index[v]
+	if !ok {
+		panic("setReg: value not of this function: " + v.Name())
+	}
+	if x == nil {
+		x = nilReg
+	}
+	fr.regs[i] = x
+}
+
+var nilReg Value = unsetT{}
+
+func (fr *Frame) getReg(v ssa.Value) (Value, bool) {
+	if fr.info == nil {
+		x, ok := fr.extra[v]
+		return x, ok
+	}
+	i, ok := fr.info.index[v]
+	if !ok {
+		return nil, false
+	}
+	x := fr.regs[i]
+	if x == nil {
+		return nil, false
+	}
+	if x == nilReg {
+		return nil, true
+	}
+	return x, true
+}
+
 func (g *G) top() *Frame { return g.frames[len(g.frames)-1] }
 
 // ---------------------------------------------------------------- operands
@@ -136,7 +178,7 @@ func (in *Interp) get(fr *Frame, v ssa.Value) Value {
 	case *ssa.Builtin:
 		return &FuncV{Intrinsic: "builtin:" + x.Name()}
 	}
-	r, ok := fr.regs[v]
+	r, ok := fr.getReg(v)
 	if !ok {
 		panic(fmt.Sprintf("register %s (%T) undefined in %s", v.Name(), v, fr.fn))
 	}
@@ -201,7 +243,7 @@ func (in *Interp) pushCall(g *G, fv *FuncV, args []Value, retTo ssa.Value) {
 		}
 		res := h(in, g, fv, args)
 		if retTo != nil && len(g.frames) > 0 {
-			g.top().regs[retTo] = res
+			g.top().setReg(retTo, res)
 		}
 		return
 	}
@@ -214,7 +256,7 @@ func (in *Interp) pushCall(g *G, fv *FuncV, args []Value, retTo ssa.Value) {
 		in.noteStub(name)
 		res := h(in, g, fv, args)
 		if retTo != nil && len(g.frames) > 0 {
-			g.top().regs[retTo] = res
+			g.top().setReg(retTo, res)
 		}
 		return
 	}
@@ -234,15 +276,16 @@ func (in *Interp) pushCall(g *G, fv *FuncV, args []Value, retTo ssa.Value) {
 		panic(unsupported("call depth exceeded at " + name))
 	}
 	in.noteFunc(fn)
-	fr := &Frame{fn: fn, block: fn.Blocks[0], regs: make(map[ssa.Value]Value, 16), retTo: retTo}
+	fi := in.fnInfoOf(fn)
+	fr := &Frame{fn: fn, block: fn.Blocks[0], regs: make([]Value, len(fi.vals)), info: fi, retTo: retTo}
 	if len(args) != len(fn.Params) {
 		panic(fmt.Sprintf("arity mismatch calling %s: %d args, %d params", name, len(args), len(fn.Params)))
 	}
 	for i, p := range fn.Params {
-		fr.regs[p] = args[i]
+		fr.setReg(p, args[i])
 	}
 	for i, fvr := range fn.FreeVars {
-		fr.regs[fvr] = fv.Bind[i]
+		fr.setReg(fvr, fv.Bind[i])
 	}
 	g.frames = append(g.frames, fr)
 }
@@ -256,13 +299,13 @@ func (in *Interp) invoke(g *G, recv IfaceV, m *types.Func, args []Value, retTo s
 	case *ErrObj:
 		res := in.errMethod(obj, m.Name(), args)
 		if retTo != nil {
-			g.top().regs[retTo] = res
+			g.top().setReg(retTo, res)
 		}
 		return
 	case *CtxObj:
 		res := in.ctxMethod(obj, m.Name(), args)
 		if retTo != nil {
-			g.top().regs[retTo] = res
+			g.top().setReg(retTo, res)
 		}
 		return
 	}
@@ -298,7 +341,7 @@ func (in *Interp) resolveCall(fr *Frame, c *ssa.CallCommon) (*FuncV, []Value) {
 // callSync runs fv(args) to completion on g (must not block) and returns its result.
 func (in *Interp) callSync(g *G, fv *FuncV, args []Value) Value {
 	// a tiny trampoline frame receives the result
-	tramp := &Frame{fn: nil, regs: map[ssa.Value]Value{}}
+	tramp := &Frame{fn: nil, extra: map[ssa.Value]Value{}}
 	g.frames = append(g.frames, tramp)
 	depth := len(g.frames)
 	key := ssa.Value(resultKey)
@@ -309,7 +352,7 @@ func (in *Interp) callSync(g *G, fv *FuncV, args []Value) Value {
 		}
 	}
 	g.frames = g.frames[:depth-1]
-	return tramp.regs[key]
+	return tramp.extra[key]
 }
 
 var resultKey = &ssa.Parameter{}
@@ -336,9 +379,9 @@ func (in *Interp) stepInstr(g *G) bool {
 	switch x := instr.(type) {
 	case *ssa.Alloc:
 		et := x.Type().(*types.Pointer).Elem()
-		fr.regs[x] = Ptr{Base: in.newCell(et, in.zero(et), x.Comment)}
+		fr.setReg(x, Ptr{Base: in.newCell(et, in.zero(et), x.Comment)})
 	case *ssa.BinOp:
-		fr.regs[x] = in.binop(x.Op, in.get(fr, x.X), in.get(fr, x.Y), x.X.Type(), x.Y.Type())
+		fr.setReg(x, in.binop(x.Op, in.get(fr, x.X), in.get(fr, x.Y), x.X.Type(), x.Y.Type()))
 	case *ssa.UnOp:
 		if x.Op == token.ARROW {
 			ch := in.get(fr, x.X).(ChanV)
@@ -348,38 +391,38 @@ func (in *Interp) stepInstr(g *G) bool {
 					v = in.zero(x.X.Type().Underlying().(*types.Chan).Elem())
 				}
 				if x.CommaOk {
-					fr.regs[x] = TupleV{v, in.tc.Bool(ok)}
+					fr.setReg(x, TupleV{v, in.tc.Bool(ok)})
 				} else {
-					fr.regs[x] = v
+					fr.setReg(x, v)
 				}
 				fr.pc++
 			}}
 			return true
 		}
-		fr.regs[x] = in.unop(x, in.get(fr, x.X))
+		fr.setReg(x, in.unop(x, in.get(fr, x.X)))
 	case *ssa.Call:
 		return in.doCall(g, fr, x)
 	case *ssa.ChangeInterface:
-		fr.regs[x] = in.get(fr, x.X)
+		fr.setReg(x, in.get(fr, x.X))
 	case *ssa.ChangeType:
-		fr.regs[x] = in.get(fr, x.X)
+		fr.setReg(x, in.get(fr, x.X))
 	case *ssa.Convert:
-		fr.regs[x] = in.convert(in.get(fr, x.X), x.X.Type(), x.Type())
+		fr.setReg(x, in.convert(in.get(fr, x.X), x.X.Type(), x.Type()))
 	case *ssa.MultiConvert:
-		fr.regs[x] = in.convert(in.get(fr, x.X), x.X.Type(), x.Type())
+		fr.setReg(x, in.convert(in.get(fr, x.X), x.X.Type(), x.Type()))
 	case *ssa.Defer:
 		fv, args := in.resolveCall(fr, &x.Call)
 		fr.defers = append(fr.defers, deferred{fv, args})
 	case *ssa.Extract:
-		fr.regs[x] = in.get(fr, x.Tuple).(TupleV)[x.Index]
+		fr.setReg(x, in.get(fr, x.Tuple).(TupleV)[x.Index])
 	case *ssa.Field:
-		fr.regs[x] = in.field(in.get(fr, x.X).(*StructV), x.Field)
+		fr.setReg(x, in.field(in.get(fr, x.X).(*StructV), x.Field))
 	case *ssa.FieldAddr:
 		p := in.get(fr, x.X).(Ptr)
 		if p.Base == nil {
 			panic(goPanic("nil pointer dereference"))
 		}
-		fr.regs[x] = subPath(p, x.Field)
+		fr.setReg(x, subPath(p, x.Field))
 	case *ssa.Go:
 		fv, args := in.resolveCall(fr, &x.Call)
 		ng := in.newG(g, fv, args, in.posString(x.Pos()))
@@ -406,9 +449,9 @@ func (in *Interp) stepInstr(g *G) bool {
 		idx := in.concreteInt(in.get(fr, x.Index).(*Term))
 		switch a := in.get(fr, x.X).(type) {
 		case *ArrayV:
-			fr.regs[x] = in.elem(a, idx)
+			fr.setReg(x, in.elem(a, idx))
 		case *Term:
-			fr.regs[x] = in.strIndex(a, idx)
+			fr.setReg(x, in.strIndex(a, idx))
 		default:
 			panic(unsupported(fmt.Sprintf("Index on %T", a)))
 		}
@@ -419,7 +462,7 @@ func (in *Interp) stepInstr(g *G) bool {
 			if idx < 0 || idx >= a.Len {
 				panic(goPanic(fmt.Sprintf("index out of range [%d] with length %d", idx, a.Len)))
 			}
-			fr.regs[x] = Ptr{Base: a.Arr, Path: []int{a.Off + idx}}
+			fr.setReg(x, Ptr{Base: a.Arr, Path: []int{a.Off + idx}})
 		case Ptr:
 			if a.Base == nil {
 				panic(goPanic("nil pointer dereference"))
@@ -428,7 +471,7 @@ func (in *Interp) stepInstr(g *G) bool {
 			if idx < 0 || idx >= len(arr.Elems) {
 				panic(goPanic("index out of range"))
 			}
-			fr.regs[x] = subPath(a, idx)
+			fr.setReg(x, subPath(a, idx))
 		default:
 			panic(unsupported(fmt.Sprintf("IndexAddr on %T", a)))
 		}
@@ -436,22 +479,22 @@ func (in *Interp) stepInstr(g *G) bool {
 		in.jump(fr, fr.block.Succs[0])
 		return false
 	case *ssa.Lookup:
-		fr.regs[x] = in.lookup(x, in.get(fr, x.X), in.get(fr, x.Index))
+		fr.setReg(x, in.lookup(x, in.get(fr, x.X), in.get(fr, x.Index)))
 	case *ssa.MakeChan:
 		n := in.concreteInt(in.get(fr, x.Size).(*Term))
 		n = in.scaleChanCap(x, n)
-		fr.regs[x] = ChanV{in.newChan(n, x.Type().Underlying().(*types.Chan).Elem(), in.posString(x.Pos()))}
+		fr.setReg(x, ChanV{in.newChan(n, x.Type().Underlying().(*types.Chan).Elem(), in.posString(x.Pos()))})
 	case *ssa.MakeClosure:
 		fv := &FuncV{Fn: x.Fn.(*ssa.Function)}
 		for _, b := range x.Bindings {
 			fv.Bind = append(fv.Bind, in.get(fr, b))
 		}
-		fr.regs[x] = fv
+		fr.setReg(x, fv)
 	case *ssa.MakeInterface:
-		fr.regs[x] = IfaceV{T: x.X.Type(), V: in.get(fr, x.X)}
+		fr.setReg(x, IfaceV{T: x.X.Type(), V: in.get(fr, x.X)})
 	case *ssa.MakeMap:
 		in.st.nextID++
-		fr.regs[x] = MapV{&MapObj{id: in.st.nextID, T: x.Type().Underlying().(*types.Map)}}
+		fr.setReg(x, MapV{&MapObj{id: in.st.nextID, T: x.Type().Underlying().(*types.Map)}})
 	case *ssa.MakeSlice:
 		l := in.concreteInt(in.get(fr, x.Len).(*Term))
 		c := in.concreteInt(in.get(fr, x.Cap).(*Term))
@@ -460,11 +503,11 @@ func (in *Interp) stepInstr(g *G) bool {
 		}
 		et := x.Type().Underlying().(*types.Slice).Elem()
 		arr := in.newCell(types.NewArray(et, int64(c)), &ArrayV{Elem: et, Elems: make([]Value, c)}, "makeslice")
-		fr.regs[x] = SliceV{Arr: arr, Off: 0, Len: l, Cap: c}
+		fr.setReg(x, SliceV{Arr: arr, Off: 0, Len: l, Cap: c})
 	case *ssa.MapUpdate:
 		in.mapUpdate(in.get(fr, x.Map).(MapV), in.get(fr, x.Key), in.get(fr, x.Value))
 	case *ssa.Next:
-		fr.regs[x] = in.next(x, in.get(fr, x.Iter).(*MapIter))
+		fr.setReg(x, in.next(x, in.get(fr, x.Iter).(*MapIter)))
 	case *ssa.Panic:
 		v := in.get(fr, x.X)
 		panic(goPanic("panic: " + in.show(v)))
@@ -472,7 +515,7 @@ func (in *Interp) stepInstr(g *G) bool {
 		// all phis of a block are evaluated together on entry (see jump)
 		panic("phi reached in stepInstr")
 	case *ssa.Range:
-		fr.regs[x] = in.rangeIter(in.get(fr, x.X))
+		fr.setReg(x, in.rangeIter(in.get(fr, x.X)))
 	case *ssa.Return:
 		var res Value
 		switch len(x.Results) {
@@ -521,7 +564,7 @@ func (in *Interp) stepInstr(g *G) bool {
 					k++
 				}
 			}
-			fr.regs[x] = tv
+			fr.setReg(x, tv)
 			fr.pc++
 		}
 		g.status = GPending
@@ -533,13 +576,13 @@ func (in *Interp) stepInstr(g *G) bool {
 		g.pend = &PendOp{kind: PSend, ch: ch.C, val: in.get(fr, x.X), pos: x.Pos(), done: func() { fr.pc++ }}
 		return true
 	case *ssa.Slice:
-		fr.regs[x] = in.sliceOp(fr, x)
+		fr.setReg(x, in.sliceOp(fr, x))
 	case *ssa.SliceToArrayPointer:
 		panic(unsupported("SliceToArrayPointer"))
 	case *ssa.Store:
 		in.store(in.get(fr, x.Addr).(Ptr), in.get(fr, x.Val))
 	case *ssa.TypeAssert:
-		fr.regs[x] = in.typeAssert(x, in.get(fr, x.X).(IfaceV))
+		fr.setReg(x, in.typeAssert(x, in.get(fr, x.X).(IfaceV)))
 	case *ssa.DebugRef:
 	default:
 		panic(unsupported(fmt.Sprintf("instruction %T", instr)))
@@ -582,7 +625,7 @@ func (in *Interp) jump(fr *Frame, to *ssa.BasicBlock) {
 		n++
 	}
 	for i := 0; i < n; i++ {
-		fr.regs[to.Instrs[i].(*ssa.Phi)] = vals[i]
+		fr.setReg(to.Instrs[i].(*ssa.Phi), vals[i])
 	}
 	fr.pc = n
 	in.cover(fr.fn, to)
@@ -596,7 +639,7 @@ func (in *Interp) doReturn(g *G, fr *Frame, res Value) {
 	}
 	caller := g.top()
 	if fr.retTo != nil {
-		caller.regs[fr.retTo] = res
+		caller.setReg(fr.retTo, res)
 	}
 	if caller.fn != nil {
 		// advance the caller past its call instruction unless it is re-executing RunDefers
@@ -661,7 +704,7 @@ func (in *Interp) callValue(g *G, fv *FuncV, args []Value, retTo ssa.Value, adv 
 		g.pend = &PendOp{kind: kind, timer: tm, pos: in.curPos, done: func() {
 			res := h(in, g, fv, args)
 			if retTo != nil {
-				g.top().regs[retTo] = res
+				g.top().setReg(retTo, res)
 			}
 			adv()
 		}}
